@@ -248,6 +248,8 @@ ClassifyResp(framing, f) ==
     ELSE IF ~RespFramed(framing, f) THEN
         (IF RespFramedAnySize(framing, f) /\ DecodeRespPDU(RespUnit(framing, f), RespPDUOf(framing, f)).ok
          THEN [kind |-> "oversize", r |-> DecodeRespPDU(RespUnit(framing, f), RespPDUOf(framing, f)).r]
+         \* (longer than an ADU AND the byte count disagrees with the length: the disagreement is what the statement names)
+         ELSE IF RespFramedAnySize(framing, f) /\ ByteCountMismatchPDU(RespPDUOf(framing, f)) THEN [kind |-> "mismatch"]
          ELSE [kind |-> "other"])
     ELSE LET p == RespPDUOf(framing, f)
              u == RespUnit(framing, f)
